@@ -730,6 +730,51 @@ func c26Step1(t *testing.T, rec *kit.Rec, e *vEnv, c *c26Case, si int, step c26S
 		}
 	}
 
+	// ---- temporary outage while READING a snapshot file (added after seeded change C26-2): the
+	// Load of one healthy snapshot file fails for the whole run. No snapshot may disappear without a
+	// replacement because of that. Only judged when no snapshot ids were given on the command line
+	// (repair snapshots --forget <id> is documented to delete an unreadable snapshot that was named).
+	if len(step.IDs) == 0 {
+		var sids []string
+		for k := range base {
+			if k.Type == backend.SnapshotFile {
+				sids = append(sids, k.Name)
+			}
+		}
+		sort.Strings(sids)
+		pr := rec.RNG("loadoutage", c.Idx, si)
+		kit.Shuffle(pr, sids)
+		if len(sids) > 2 && !env.Thorough() {
+			sids = sids[:2]
+		}
+		for _, sid := range sids {
+			for _, perm := range []bool{false, true} {
+				d := desc(fmt.Sprintf("load outage of snapshot %.8s permanent=%v", sid, perm))
+				fe := e.onState(base.WithoutLocks(), true)
+				ferrv := kit.ErrInjected
+				if perm {
+					ferrv = kit.ErrPermanent
+				}
+				name := sid
+				fe.vbe.SetFault(func(op *kit.Op, ph kit.Phase) error {
+					if ph == kit.Before && op.Kind == kit.OpLoad && op.H.Type == backend.SnapshotFile && op.H.Name == name {
+						return ferrv
+					}
+					return nil
+				})
+				_, ferr := c26Exec(fe, step)
+				fe.vbe.SetFault(nil)
+				st := fe.vbe.Snapshot().WithoutLocks()
+				v := c26Judge(repokit.NewAudit(e.key, st), lins, before, step)
+				if len(v.Probs) > 0 {
+					rec.Violation("fault-load-outage", fmt.Sprintf("%s %q while Load of snapshot %.8s failed (command error: %v): %s", step.Cmd, step.Arg, sid, ferr, strings.Join(v.Probs, " | ")), d)
+				}
+				rec.Case(fmt.Sprintf("loadoutage/%d/%d/%.8s/%v", c.Idx, si, sid, perm), true)
+				rec.Count("load_outage_runs", 1)
+			}
+		}
+	}
+
 	// ---- lineages after the edit
 	var next []*c26Lin
 	for _, l := range lins {
